@@ -230,6 +230,11 @@ package op
 //@        || clientKeysChecked(old(authReq.RequestParam), jwtPayload(old(authReq.RequestParam)), storage, "")
 //@   ensures identity-kept: authReq.ClientID == old(authReq.ClientID) && authReq.ResponseType == old(authReq.ResponseType)
 //@   ensures consumed: result == nil ==> authReq.RequestParam == ""
+//@   ensures agrees-with-outer-request: result == nil ==>
+//@           (callarg("oidc.ParseToken", 1, "*oidc.RequestObject").ClientID == "" || callarg("oidc.ParseToken", 1, "*oidc.RequestObject").ClientID == old(authReq.ClientID))
+//@        && (callarg("oidc.ParseToken", 1, "*oidc.RequestObject").ResponseType == "" || callarg("oidc.ParseToken", 1, "*oidc.RequestObject").ResponseType == old(authReq.ResponseType))
+//@        && callarg("oidc.ParseToken", 1, "*oidc.RequestObject").Issuer == callarg("oidc.ParseToken", 1, "*oidc.RequestObject").ClientID
+//@   ensures targets-this-issuer: result == nil ==> callres("slices.Contains", 0)
 
 //@ func op.CopyRequestObjectToAuthRequest
 //@   requires valid(authReq) && valid(requestObject)
